@@ -155,18 +155,26 @@ func rulesTraverseStep(c *Ctx, r *Report) {
 		r.undecided("STEP", "formats/newick.(*Node).traverse", "anchor", "", "traverse with one iterator literal not found")
 		return
 	}
-	f := outer.AnonFuncs[0]
-	where := fname(f)
+	lit := outer.AnonFuncs[0]
+	where := fname(lit)
 	r.analysed(where)
-	s := newSymb(f)
+	// the literal's body, or the function it hands the whole walk to (rendered in the literal's vocabulary)
+	f, s, paramIn := c.delegatedBody(lit)
+	if f != lit {
+		r.analysed(fname(f))
+	}
 	// yield calls with their guards
 	type ycall struct {
 		call  *ssa.Call
 		guard string
 	}
 	var ys []ycall
+	var yieldV ssa.Value
+	if len(lit.Params) == 1 {
+		yieldV = paramIn(lit.Params[0])
+	}
 	instrs(f, func(in ssa.Instruction) {
-		if cl, ok := in.(*ssa.Call); ok && len(f.Params) == 1 && cl.Call.Value == ssa.Value(f.Params[0]) {
+		if cl, ok := in.(*ssa.Call); ok && yieldV != nil && cl.Call.Value == yieldV {
 			ys = append(ys, ycall{cl, guardOf(s, cl.Block(), nil)})
 		}
 	})
